@@ -258,6 +258,33 @@ func (vc *VC) invoke(f *Frame, n *Node, in ssa.Instruction, recv *SV, m *types.F
 			recv = &r2
 		}
 	}
+	if vc.Contract != nil && vc.Contract.SplitDispatch && f.depth == 0 && recv.Exact && len(recv.Cands) > 1 {
+		if _, _, lit := litVal(recv.C[0]); !lit {
+			// one VC per dynamic type of this receiver (the decision is shared by all calls on the same type tag)
+			var usable []types.Type
+			for _, ct := range recv.Cands {
+				if sel := vc.eng.prog.MethodSets.MethodSet(ct).Lookup(m.Pkg(), m.Name()); sel != nil {
+					usable = append(usable, ct)
+				}
+			}
+			key := "dyn:" + recv.C[0]
+			k, have := vc.valDecisions[key]
+			if !have {
+				var vals []int64
+				for i := range usable {
+					vals = append(vals, int64(i))
+				}
+				panic(needDecision{key: key, values: vals})
+			}
+			if int(k) < len(usable) {
+				r2 := *recv
+				r2.Cands = []types.Type{usable[k]}
+				recv = &r2
+				vc.oblige("nil-invoke", "method call on a nil interface"+f.wherei(in), n.Reach, not(eq(recv.C[0], bvLit(tidBits, 0))), "@nopanic")
+				vc.assume(implies(n.Reach, eq(recv.C[0], vc.eng.typeID(usable[k]))))
+			}
+		}
+	}
 	if !recv.Exact || len(recv.Cands) > 0 {
 		vc.oblige("nil-invoke", "method call on a nil interface"+f.wherei(in), n.Reach, not(eq(recv.C[0], bvLit(tidBits, 0))), "@nopanic")
 	} else {
